@@ -1,4 +1,542 @@
-//! harness family c20 (stub until the family is built)
+//! harness family c20: output is a deterministic function of input.
+//!
+//! The family re-executes ITSELF (`std::env::current_exe()`) as N fresh child processes (Rust's `RandomState`
+//! differs per process, so every `HashMap`/`HashSet` iterates in another order) on the same generated inputs
+//! and the same (shimmed) clock.  Every process computes, per case and per operation, a digest of the bytes
+//! the operation produced.  Oracle: for every (case, operation) all N child digests and the two digests
+//! computed inside the parent process are identical.  Model tie: the `Records` renderers, the `chunks`
+//! object of `FileImage::to_json` and `create_dasm_map` are compared with `Model.Determinism` (the iteration
+//! order the parent process happened to see is passed to the model).
 use crate::util::*;
+use a2kit::fs::{cpm, dos3x, fat, pascal, prodos, DiskFS, FileImage, Records, TextConversion};
+use a2kit::img::{self, names, DiskImage};
+use a2kit::lang::merlin::ProcessorType;
+use std::collections::{BTreeMap, HashMap};
 
-pub fn run(_ctx: &mut Ctx) {}
+const CHILD_ENV: &str = "A2V_C20_CHILD";
+const KINDS: usize = 16;
+
+/// identity converter: the bytes of the UTF-8 text (the model's converter is the identity as well)
+struct Ident;
+impl TextConversion for Ident {
+    fn new(_line_terminator: Vec<u8>) -> Self { Ident }
+    fn from_utf8(&self, txt: &str) -> Option<Vec<u8>> { Some(txt.as_bytes().to_vec()) }
+    fn to_utf8(&self, src: &[u8]) -> Option<String> { Some(String::from_utf8_lossy(src).to_string()) }
+}
+
+/// (operation name, bytes produced); the digest of the bytes is what processes compare
+type Obs = Vec<(String, Vec<u8>)>;
+
+fn ob(obs: &mut Obs, name: &str, bytes: Vec<u8>) { obs.push((name.to_string(), bytes)); }
+fn ob_res<T, E>(obs: &mut Obs, name: &str, r: Result<T, E>, f: impl FnOnce(T) -> Vec<u8>) {
+    match r { Ok(v) => ob(obs, name, f(v)), Err(_) => ob(obs, name, b"<err>".to_vec()) }
+}
+
+// ------------------------------------------------------------------------------------------------ generators
+
+fn gen_text(rng: &mut Rng, lines: usize, maxlen: usize) -> String {
+    const CH: &[u8] = b"ABCDEFGHIJKLMNOPQRSTUVWXYZabcdefghijklmnopqrstuvwxyz0123456789 ,.;:!?+-*/=()\"\\";
+    let mut s = String::new();
+    for i in 0..lines {
+        let n = rng.range(1, maxlen.max(1));
+        for _ in 0..n { s.push(*rng.pick(CH) as char); }
+        if i + 1 < lines || rng.chance(50) { s.push('\n'); }
+    }
+    s
+}
+
+struct RecCase { rec_len: usize, chunk_len: usize, require_first: bool, clear: bool, init: Vec<(usize, Vec<u8>)>, recs: Vec<(usize, String)>, overlong: bool }
+
+fn gen_records(rng: &mut Rng, overlong: bool) -> RecCase {
+    let rec_len = rng.range(6, 40);
+    let chunk_len = *rng.pick(&[16usize, 32, 64, 256]);
+    let n = rng.range(6, 10);
+    let mut keys: Vec<usize> = Vec::new();
+    while keys.len() < n { let k = rng.below(24); if !keys.contains(&k) { keys.push(k); } }
+    let mut recs = Vec::new();
+    for (i, k) in keys.iter().enumerate() {
+        let lines = rng.range(1, 3);
+        let mut txt = gen_text(rng, lines, (rec_len / lines).saturating_sub(1).max(1));
+        while txt.len() > rec_len { txt.pop(); }
+        if overlong && (i < 2) {
+            // runs over the following record(s); the code only warns
+            txt = gen_text(rng, 1, 1);
+            while txt.len() < rec_len * 2 + 3 { txt.push((b'a' + (txt.len() % 26) as u8) as char); }
+        }
+        recs.push((*k, txt));
+    }
+    if overlong {
+        // make sure the over-long records have neighbours to run into
+        let k0 = recs[0].0;
+        if !recs.iter().any(|(k, _)| *k == k0 + 1) { recs.push((k0 + 1, "NEXT".to_string())); }
+    }
+    let mut init = Vec::new();
+    let clear = rng.chance(50);
+    if rng.chance(60) {
+        for c in 0..rng.range(1, 3) { init.push((c * 2, rng.bytes(chunk_len))); }
+    }
+    RecCase { rec_len, chunk_len, require_first: rng.chance(50), clear, init, recs, overlong }
+}
+
+fn blank_fimg(chunk_len: usize, init: &[(usize, Vec<u8>)]) -> FileImage {
+    let mut chunks = HashMap::new();
+    for (k, v) in init { chunks.insert(*k, v.clone()); }
+    FileImage { fimg_version: FileImage::fimg_version(), file_system: "prodos".to_string(), chunk_len, eof: vec![0; 4], fs_type: vec![4],
+        aux: vec![0, 0], access: vec![0xc3], accessed: vec![], created: vec![0; 4], modified: vec![0; 4], version: vec![0], min_version: vec![0],
+        full_path: "RECS".to_string(), chunks }
+}
+
+fn mk_records(rc: &RecCase) -> Records {
+    let mut r = Records::new(rc.rec_len);
+    for (k, t) in &rc.recs { r.add_record(*k, t); }
+    r
+}
+
+fn entries_str(es: &[(usize, Vec<u8>)]) -> String {
+    if es.is_empty() { return "-".to_string(); }
+    es.iter().map(|(k, v)| format!("{}:{}", k, hx(v))).collect::<Vec<String>>().join(";")
+}
+
+fn canon_fimg(f: &FileImage) -> String {
+    let mut es: Vec<(usize, Vec<u8>)> = f.chunks.iter().map(|(k, v)| (*k, v.clone())).collect();
+    es.sort();
+    format!("eof={} {}", f.get_eof(), entries_str(&es))
+}
+
+// ------------------------------------------------------------------------------------------------ disks
+
+#[derive(Clone, Copy, Debug, PartialEq)]
+enum Fs { Dos33, Dos32, Prodos, Pascal, Cpm, Fat }
+
+fn mk_disk(fs: Fs, variant: usize) -> Result<(Box<dyn DiskFS>, String), String> {
+    let e = |x: Box<dyn std::error::Error>| x.to_string();
+    match fs {
+        Fs::Dos33 => {
+            let (img, nm): (Box<dyn DiskImage>, &str) = match variant % 3 {
+                0 => (Box::new(img::dsk_do::DO::create(35, 16)), "do"),
+                1 => (Box::new(img::woz2::Woz2::create(254, names::A2_DOS33_KIND)), "woz2"),
+                _ => (Box::new(img::nib::Nib::create(254, names::A2_DOS33_KIND)), "nib"),
+            };
+            let mut d = dos3x::Disk::from_img(img).map_err(e)?;
+            d.init33(254, false).map_err(e)?;
+            Ok((Box::new(d), format!("dos33/{}", nm)))
+        }
+        Fs::Dos32 => {
+            let (img, nm): (Box<dyn DiskImage>, &str) = match variant % 2 {
+                0 => (Box::new(img::dsk_d13::D13::create(35)), "d13"),
+                _ => (Box::new(img::woz1::Woz1::create(254, names::A2_DOS32_KIND)), "woz1"),
+            };
+            let mut d = dos3x::Disk::from_img(img).map_err(e)?;
+            d.init32(254, false).map_err(e)?;
+            Ok((Box::new(d), format!("dos32/{}", nm)))
+        }
+        Fs::Prodos => {
+            let (img, nm, floppy): (Box<dyn DiskImage>, &str, bool) = match variant % 4 {
+                0 => (Box::new(img::dsk_po::PO::create(280)), "po", false),
+                1 => (img::dot2mg::Dot2mg::create(254, names::A2_DOS33_KIND, None).map_err(e)?, "2mg", true),
+                2 => (Box::new(img::woz2::Woz2::create(254, names::A2_DOS33_KIND)), "woz2", true),
+                _ => (Box::new(img::dsk_do::DO::create(35, 16)), "do", false),
+            };
+            let mut d = prodos::Disk::from_img(img).map_err(e)?;
+            d.format("NEW.DISK", floppy, None).map_err(e)?;
+            Ok((Box::new(d), format!("prodos/{}", nm)))
+        }
+        Fs::Pascal => {
+            let (img, nm): (Box<dyn DiskImage>, &str) = match variant % 2 {
+                0 => (Box::new(img::dsk_do::DO::create(35, 16)), "do"),
+                _ => (Box::new(img::dsk_po::PO::create(280)), "po"),
+            };
+            let mut d = pascal::Disk::from_img(img).map_err(e)?;
+            d.format("BLANK", 0xee, None).map_err(e)?;
+            Ok((Box::new(d), format!("pascal/{}", nm)))
+        }
+        Fs::Cpm => {
+            let (img, kind, vers, nm): (Box<dyn DiskImage>, img::DiskKind, [u8; 3], &str) = match variant % 4 {
+                0 => (Box::new(img::dsk_do::DO::create(35, 16)), names::A2_DOS33_KIND, [2, 2, 3], "do"),
+                1 => (Box::new(img::imd::Imd::create(names::OSBORNE1_DD_KIND)), names::OSBORNE1_DD_KIND, [2, 2, 3], "imd-osb"),
+                2 => (Box::new(img::td0::Td0::create(names::KAYPROII_KIND)), names::KAYPROII_KIND, [2, 2, 3], "td0-kayii"),
+                _ => (Box::new(img::imd::Imd::create(names::IBM_CPM1_KIND)), names::IBM_CPM1_KIND, [3, 1, 0], "imd-cpm3"),
+            };
+            let mut d = cpm::Disk::from_img(img, a2kit::bios::dpb::DiskParameterBlock::create(&kind), vers).map_err(e)?;
+            let time = if vers[0] >= 3 { Some(chrono::Local::now().naive_local()) } else { None };
+            d.format(if vers[0] >= 3 { "LABEL" } else { "" }, time).map_err(e)?;
+            Ok((Box::new(d), format!("cpm/{}", nm)))
+        }
+        Fs::Fat => {
+            let (kind, which, nm) = match variant % 3 {
+                0 => (img::DiskKind::D525(names::IBM_SSDD_9), 0, "img-180k"),
+                1 => (img::DiskKind::D525(names::IBM_DSDD_9), 1, "imd-360k"),
+                _ => (img::DiskKind::D35(names::IBM_1440), 0, "img-1440k"),
+            };
+            let img: Box<dyn DiskImage> = if which == 0 { Box::new(img::dsk_img::Img::create(kind)) } else { Box::new(img::imd::Imd::create(kind)) };
+            let boot = a2kit::bios::bpb::BootSector::create(&kind).map_err(e)?;
+            let mut d = fat::Disk::from_img(img, Some(boot)).map_err(e)?;
+            d.format("NEWDISK", None).map_err(e)?;
+            Ok((Box::new(d), format!("fat/{}", nm)))
+        }
+    }
+}
+
+fn fname(fs: Fs, i: usize, dir: &str) -> String {
+    let base = match fs {
+        Fs::Dos33 | Fs::Dos32 => format!("FILE{}", i),
+        Fs::Prodos => format!("FILE{}", i),
+        Fs::Pascal => format!("F{}.TEXT", i),
+        Fs::Cpm => format!("FILE{}.TXT", i),
+        Fs::Fat => format!("FILE{}.TXT", i),
+    };
+    if dir.is_empty() { base } else { format!("{}/{}", dir, base) }
+}
+
+/// an operation history on a fresh volume, then every observation C20 lists
+fn disk_case(rng: &mut Rng, fs: Fs, variant: usize, obs: &mut Obs) -> String {
+    let (mut disk, label) = match mk_disk(fs, variant) { Ok(x) => x, Err(e) => { ob(obs, "mkdisk", format!("err {}", e).into_bytes()); return format!("{:?}/{} mk-failed", fs, variant); } };
+    let mut desc = label.clone();
+    let hier = fs == Fs::Prodos || fs == Fs::Fat;
+    let mut dirs: Vec<String> = vec!["".to_string()];
+    if hier {
+        for d in ["SUB1", "SUB2"] { if disk.create(d).is_ok() { dirs.push(d.to_string()); } }
+        if disk.create("SUB1/DEEP").is_ok() { dirs.push("SUB1/DEEP".to_string()); }
+    }
+    let nfiles = rng.range(6, 9);
+    let mut live: Vec<String> = Vec::new();
+    for i in 0..nfiles {
+        let dir = rng.pick(&dirs).clone();
+        let path = fname(fs, i, &dir);
+        let len = *rng.pick(&[1usize, 100, 300, 700, 1500, 3000]);
+        let ok = match rng.below(3) {
+            0 if fs != Fs::Pascal => disk.bsave(&path, &rng.bytes(len), if fs == Fs::Cpm || fs == Fs::Fat { None } else { Some(0x2000 + i) }, None).is_ok(),
+            1 => { let t = gen_text(rng, 1 + len / 40, 38).replace('\\', "/").replace('"', "'"); disk.write_text(&path, &t).is_ok() }
+            _ => { let mut f = match disk.new_fimg(None, true, &path) { Ok(f) => f, Err(_) => continue }; f.pack_raw(&rng.bytes(len)).is_ok() && disk.put(&f).is_ok() }
+        };
+        desc += &format!(" put:{}:{}", path, ok);
+        if ok { live.push(path); }
+    }
+    // random access text goes through Records::update_fimg
+    if fs == Fs::Dos33 || fs == Fs::Prodos {
+        let rc = gen_records(rng, false);
+        let recs = mk_records(&rc);
+        let ok = disk.write_records("RECS", &recs).is_ok();
+        desc += &format!(" write_records:{}", ok);
+        if ok { live.push("RECS".to_string()); }
+    }
+    // a few structural operations
+    if live.len() > 3 {
+        let victim = live.remove(rng.below(live.len()));
+        desc += &format!(" del:{}:{}", victim, disk.delete(&victim).is_ok());
+        let r = live[rng.below(live.len())].clone();
+        let newname = match fs { Fs::Pascal => "RENAMED.TEXT", Fs::Cpm | Fs::Fat => "RENAMED.TXT", _ => "RENAMED" };
+        if disk.rename(&r, newname).is_ok() {
+            let parent = match r.rfind('/') { Some(p) => r[..p + 1].to_string(), None => "".to_string() };
+            live.retain(|x| *x != r);
+            live.push(format!("{}{}", parent, newname));
+            desc += &format!(" ren:{}", r);
+        }
+        let l = live[rng.below(live.len())].clone();
+        desc += &format!(" lock:{}:{}", l, disk.lock(&l).is_ok());
+    }
+    // observations
+    let root = if hier { "/" } else { "" };
+    ob_res(obs, "catalog", disk.catalog_to_vec(root), |v| v.join("\n").into_bytes());
+    for d in dirs.iter().skip(1) { ob_res(obs, "catalog", disk.catalog_to_vec(d), |v| v.join("\n").into_bytes()); }
+    ob_res(obs, "tree", disk.tree(true, None), |s| s.into_bytes());
+    ob_res(obs, "tree", disk.tree(false, Some(2)), |s| s.into_bytes());
+    ob_res(obs, "stat", disk.stat(), |s| s.to_json(None).into_bytes());
+    ob_res(obs, "glob", disk.glob("*", false), |v| v.join("\n").into_bytes());
+    ob_res(obs, "glob", disk.glob("**/*E*", true), |v| v.join("\n").into_bytes());
+    live.sort();
+    for p in &live {
+        match disk.get(p) {
+            Ok(f) => {
+                ob(obs, "get-fimg-json", f.to_json(None).into_bytes());
+                ob(obs, "get-fimg-json", f.to_json(Some(2)).into_bytes());
+                ob_res(obs, "get-raw", f.unpack_raw(true), |v| v);
+                if p.ends_with("RECS") { ob_res(obs, "get-unpack-rec-str", f.unpack_rec_str(None, None), |s| s.into_bytes()); }
+            }
+            Err(_) => ob(obs, "get-fimg-json", b"<err>".to_vec()),
+        }
+    }
+    ob_res(obs, "geometry", disk.get_img().export_geometry(None), |s| s.into_bytes());
+    ob(obs, "metadata", disk.get_img().get_metadata(None).into_bytes());
+    ob(obs, "img-bytes", disk.get_img().to_bytes());
+    desc
+}
+
+// ------------------------------------------------------------------------------------------------ languages
+
+fn gen_applesoft(rng: &mut Rng) -> String {
+    let stmts = ["PRINT \"HELLO\"", "A = A + 1", "GOSUB 100", "FOR I = 1 TO 10: NEXT I", "IF A > 3 THEN GOTO 10", "HOME", "DIM X(10),Y$(4)",
+        "INPUT \"NAME\";N$", "REM a comment", "POKE 49168,0", "X = PEEK(49152)", "DEF FN SQ(X) = X*X", "PRINT FN SQ(3);A$;LONGNAME", "HTAB 5: VTAB 6", "DATA 1,2,\"three\"", "READ A,B,C$", "CALL -936"];
+    let mut s = String::new();
+    for i in 0..rng.range(6, 14) { s += &format!("{} {}\n", 10 * (i + 1), rng.pick(&stmts)); }
+    s
+}
+fn gen_integer(rng: &mut Rng) -> String {
+    let stmts = ["PRINT \"HELLO\"", "A = A + 1", "GOSUB 100", "FOR I = 1 TO 10: NEXT I", "IF A > 3 THEN GOTO 10", "DIM X(10),Y$(4)", "INPUT N$", "REM a comment",
+        "POKE 49168,0", "X = PEEK(49152)", "CALL -936", "TAB 5: VTAB 6", "END"];
+    let mut s = String::new();
+    for i in 0..rng.range(6, 14) { s += &format!("{} {}\n", 10 * (i + 1), rng.pick(&stmts)); }
+    s
+}
+fn gen_merlin(rng: &mut Rng) -> String {
+    let lines = ["START    LDA   #$00", "         STA   $C010", "LOOP     INX", "         BNE   LOOP", "         JSR   $FDED", "         JMP   START", "* comment line",
+        "VAL      EQU   $300", "         LDA   VAL,X", "         RTS", ":LOCAL   DEC", "         BEQ   :LOCAL", "]VAR     =     5", "         DFB   $01,$02,VAL", "         ASC   'HELLO'", "MAC1     MAC", "         <<<"];
+    let mut s = String::new();
+    for _ in 0..rng.range(6, 14) { s += *rng.pick(&lines[..]); s.push('\n'); }
+    s
+}
+
+fn lang_case(rng: &mut Rng, obs: &mut Obs) -> String {
+    let a = gen_applesoft(rng);
+    let mut at = a2kit::lang::applesoft::tokenizer::Tokenizer::new();
+    match at.tokenize(&a, 2049) {
+        Ok(t) => { ob_res(obs, "applesoft-detokenize", at.detokenize(&t), |s| s.into_bytes()); ob(obs, "applesoft-tokenize", t); }
+        Err(_) => ob(obs, "applesoft-tokenize", b"<err>".to_vec()),
+    }
+    let i = gen_integer(rng);
+    let mut it = a2kit::lang::integer::tokenizer::Tokenizer::new();
+    match it.tokenize(i.clone()) {
+        Ok(t) => { ob_res(obs, "integer-detokenize", it.detokenize(&t), |s| s.into_bytes()); ob(obs, "integer-tokenize", t); }
+        Err(_) => ob(obs, "integer-tokenize", b"<err>".to_vec()),
+    }
+    let m = gen_merlin(rng);
+    let mut mt = a2kit::lang::merlin::tokenizer::Tokenizer::new();
+    match mt.tokenize(m.clone()) {
+        Ok(t) => { ob_res(obs, "merlin-detokenize", mt.detokenize(&t), |s| s.into_bytes()); ob(obs, "merlin-tokenize", t); }
+        Err(_) => ob(obs, "merlin-tokenize", b"<err>".to_vec()),
+    }
+    // disassembly: random bytes plus a few of the doubly claimed opcodes (jml/jmp $5C, jsl/jsr $22)
+    let ncode = rng.range(40, 120);
+    let mut code = rng.bytes(ncode);
+    for k in 0..4 { let p = rng.below(code.len() - 4); code[p] = if k % 2 == 0 { 0x5c } else { 0x22 }; }
+    for (proc, nm) in [(ProcessorType::_6502, "6502"), (ProcessorType::_65c02, "65c02"), (ProcessorType::_65c816, "65c816")] {
+        for labeling in ["all", "some", "none"] {
+            let mut d = a2kit::lang::merlin::disassembly::Disassembler::new();
+            d.set_program_counter(Some(0x300));
+            let mut img = vec![0u8; 0x300];
+            img.extend_from_slice(&code);
+            let r = d.disassemble(&img, a2kit::lang::merlin::disassembly::DasmRange::Range([0x300, 0x300 + code.len()]), proc.clone(), labeling);
+            ob_res(obs, &format!("disassemble-{}", nm), r, |s| s.into_bytes());
+        }
+    }
+    let mut d = a2kit::lang::merlin::disassembly::Disassembler::new();
+    ob(obs, "disassemble-data", d.disassemble_as_data(&code).into_bytes());
+    format!("lang applesoft={}B integer={}B merlin={}B code={}", a.len(), i.len(), m.len(), hx(&code))
+}
+
+fn records_case(rng: &mut Rng, overlong: bool, obs: &mut Obs) -> (String, RecCase) {
+    let rc = gen_records(rng, overlong);
+    let recs = mk_records(&rc);
+    ob(obs, "records-to-json", recs.to_json(None).into_bytes());
+    ob(obs, "records-to-json", recs.to_json(Some(2)).into_bytes());
+    ob(obs, "records-display", recs.to_string().into_bytes());
+    let mut f = blank_fimg(rc.chunk_len, &rc.init);
+    let r = recs.update_fimg(&mut f, rc.require_first, Ident, rc.clear);
+    ob(obs, "records-update-fimg", match r { Ok(()) => canon_fimg(&f).into_bytes(), Err(_) => b"<err>".to_vec() });
+    // the same through a packer and onto a disk: bytes of the modified image
+    if let Ok((mut disk, _)) = mk_disk(if overlong { Fs::Prodos } else { Fs::Dos33 }, 0) {
+        let w = disk.write_records("RECS", &recs).is_ok();
+        ob(obs, "records-image-bytes", if w { disk.get_img().to_bytes() } else { b"<err>".to_vec() });
+        if w {
+            ob_res(obs, "records-image-read-back", disk.read_records("RECS", Some(rc.rec_len)), |r| {
+                let mut es: Vec<(usize, String)> = r.map.iter().map(|(k, v)| (*k, v.clone())).collect();
+                es.sort();
+                format!("{:?}", es).into_bytes()
+            });
+        }
+    }
+    // round trip of the JSON through from_json
+    ob_res(obs, "records-from-json", Records::from_json(&recs.to_json(None)), |r| {
+        let mut es: Vec<(usize, String)> = r.map.iter().map(|(k, v)| (*k, v.clone())).collect();
+        es.sort();
+        format!("{:?}", es).into_bytes()
+    });
+    (format!("records rec_len={} chunk_len={} require_first={} clear={} overlong={} keys={:?}", rc.rec_len, rc.chunk_len, rc.require_first, rc.clear,
+        rc.overlong, rc.recs.iter().map(|x| x.0).collect::<Vec<usize>>()), rc)
+}
+
+/// everything one case observes; identical code in parent and children
+fn run_case(seed: u64, idx: usize) -> (String, Obs, Option<RecCase>) {
+    let mut rng = Rng::new(seed).fork(idx as u64);
+    let mut obs: Obs = Vec::new();
+    let kind = idx % KINDS;
+    let variant = idx / KINDS;
+    let mut rc = None;
+    let desc = match kind {
+        0 | 8 => { let (d, r) = records_case(&mut rng, false, &mut obs); rc = Some(r); d }
+        1 => { let (d, r) = records_case(&mut rng, true, &mut obs); rc = Some(r); d }
+        2 => disk_case(&mut rng, Fs::Dos33, variant * 3, &mut obs),
+        3 => disk_case(&mut rng, Fs::Prodos, variant * 4, &mut obs),
+        4 => disk_case(&mut rng, Fs::Pascal, variant, &mut obs),
+        5 => disk_case(&mut rng, Fs::Cpm, variant * 4, &mut obs),
+        6 => disk_case(&mut rng, Fs::Fat, variant * 3, &mut obs),
+        7 | 15 => lang_case(&mut rng, &mut obs),
+        9 => disk_case(&mut rng, Fs::Cpm, variant * 4 + 1 + variant % 3, &mut obs),
+        10 => disk_case(&mut rng, Fs::Fat, variant * 3 + 1 + variant % 2, &mut obs),
+        11 => disk_case(&mut rng, Fs::Prodos, variant * 4 + 1 + variant % 3, &mut obs),
+        12 => disk_case(&mut rng, Fs::Dos33, variant * 3 + 1 + variant % 2, &mut obs),
+        13 => disk_case(&mut rng, Fs::Dos32, variant, &mut obs),
+        _ => disk_case(&mut rng, Fs::Cpm, 3, &mut obs),
+    };
+    (desc, obs, rc)
+}
+
+/// digests per operation name (several observations of one operation are folded into one digest)
+fn digests(obs: &Obs) -> BTreeMap<String, u64> {
+    let mut m: BTreeMap<String, Vec<u8>> = BTreeMap::new();
+    for (name, bytes) in obs {
+        let e = m.entry(name.clone()).or_default();
+        e.extend_from_slice(&(bytes.len() as u64).to_le_bytes());
+        e.extend_from_slice(bytes);
+    }
+    m.into_iter().map(|(k, v)| (k, fnv(&v))).collect()
+}
+
+fn case_count(ctx: &Ctx) -> usize { ctx.n(64, 320) }
+
+fn child(ctx: &mut Ctx) {
+    let n = case_count(ctx);
+    let mut out = String::new();
+    for idx in 0..n {
+        if !ctx.out.wants(idx) { continue; }
+        let seed = ctx.seed;
+        match guarded(move || run_case(seed, idx)) {
+            Ok((_, obs, _)) => for (op, d) in digests(&obs) { out += &format!("X\t{}\t{}\t{:016x}\n", idx, op, d); },
+            Err(p) => out += &format!("X\t{}\tpanic\t{:016x}\n", idx, fnv(panic_site(&p).as_bytes())),
+        }
+    }
+    print!("{}", out);
+}
+
+fn sig_for(op: &str) -> String {
+    format!("c20/{}/order-varies", op)
+}
+
+pub fn run(ctx: &mut Ctx) {
+    if std::env::var(CHILD_ENV).is_ok() { child(ctx); return; }
+    let n = case_count(ctx);
+    let nproc = ctx.n(8, 64);
+    // ---- parent: every case twice in this process
+    let mut parent: BTreeMap<(usize, String), u64> = BTreeMap::new();
+    let mut descs: BTreeMap<usize, String> = BTreeMap::new();
+    for idx in 0..n {
+        if !ctx.out.wants(idx) { continue; }
+        let seed = ctx.seed;
+        let r1 = guarded(move || run_case(seed, idx));
+        let r2 = guarded(move || run_case(seed, idx));
+        match (r1, r2) {
+            (Ok((desc, obs1, rc)), Ok((_, obs2, _))) => {
+                let d1 = digests(&obs1);
+                let d2 = digests(&obs2);
+                for (op, d) in &d1 {
+                    let same = d2.get(op) == Some(d);
+                    ctx.out.oracle(same, "same-process-repeat", &format!("c20/{}/repeat-differs", op), &format!("idx={} op={} {}", idx, op, desc));
+                    parent.insert((idx, op.clone()), *d);
+                    ctx.out.count(&format!("op:{}", op));
+                }
+                let mut canon: Vec<u8> = Vec::new();
+                for (op, b) in &obs1 { canon.extend_from_slice(op.as_bytes()); canon.extend_from_slice(&fnv(b).to_le_bytes()); }
+                ctx.out.case(&canon, obs1.len() >= 3);
+                ctx.out.count(&format!("kind:{}", desc.split(|c| c == ' ').next().unwrap_or("?")));
+                ctx.out.sample(&format!("idx={} {}", idx, desc));
+                descs.insert(idx, desc);
+                if let Some(rc) = rc { tie_records(ctx, idx, &rc); }
+            }
+            (Err(p), _) | (_, Err(p)) => {
+                // a crash is C12's business; here it only means the case cannot be compared
+                ctx.out.count("panicked-case");
+                parent.insert((idx, "panic".to_string()), fnv(panic_site(&p).as_bytes()));
+                descs.insert(idx, format!("panic {}", panic_site(&p)));
+            }
+        }
+    }
+    if ctx.out.wants(0) { tie_dasm_map(ctx); tie_chunks_json(ctx); }
+    // ---- children: fresh processes, fresh hash seeds
+    let exe = match std::env::current_exe() { Ok(e) => e, Err(_) => { ctx.out.oracle(false, "spawn", "c20/harness/no-current-exe", "idx=0"); return; } };
+    let args: Vec<String> = std::env::args().collect();
+    let mut results: Vec<BTreeMap<(usize, String), u64>> = Vec::new();
+    let mut pending: Vec<std::process::Child> = Vec::new();
+    let mut launched = 0;
+    let batch = 16;
+    while launched < nproc || !pending.is_empty() {
+        while launched < nproc && pending.len() < batch {
+            let mut cmd = std::process::Command::new(&exe);
+            cmd.arg("c20").arg(&args[2]).arg(&args[3]).arg("-");
+            if let Some(k) = ctx.out.only { cmd.arg("--only").arg(k.to_string()); }
+            cmd.env(CHILD_ENV, "1").stdout(std::process::Stdio::piped()).stderr(std::process::Stdio::null());
+            match cmd.spawn() { Ok(c) => pending.push(c), Err(_) => { ctx.out.oracle(false, "spawn", "c20/harness/spawn-failed", "idx=0"); return; } }
+            launched += 1;
+        }
+        let c = pending.remove(0);
+        match c.wait_with_output() {
+            Ok(o) => {
+                let mut m = BTreeMap::new();
+                for line in String::from_utf8_lossy(&o.stdout).lines() {
+                    let p: Vec<&str> = line.split('\t').collect();
+                    if p.len() == 4 && p[0] == "X" { if let (Ok(i), Ok(d)) = (p[1].parse::<usize>(), u64::from_str_radix(p[3], 16)) { m.insert((i, p[2].to_string()), d); } }
+                }
+                if !o.status.success() { ctx.out.oracle(false, "child-exit", "c20/harness/child-died", &format!("idx=0 status={:?}", o.status.code())); }
+                results.push(m);
+            }
+            Err(_) => ctx.out.oracle(false, "child-exit", "c20/harness/child-wait-failed", "idx=0"),
+        }
+    }
+    ctx.out.count_n("child-processes", results.len() as u64);
+    // ---- oracle: per (case, operation) all processes agree
+    for ((idx, op), d) in &parent {
+        let mut distinct: Vec<u64> = vec![*d];
+        let mut missing = 0;
+        for r in &results {
+            match r.get(&(*idx, op.clone())) { Some(x) => if !distinct.contains(x) { distinct.push(*x); }, None => missing += 1 }
+        }
+        let pass = distinct.len() == 1 && missing == 0;
+        let desc = descs.get(idx).cloned().unwrap_or_default();
+        ctx.out.oracle(pass, "fresh-process-repeat", &sig_for(op),
+            &format!("idx={} op={} distinct_outputs={} of {} processes missing={} {}", idx, op, distinct.len(), results.len() + 1, missing, desc));
+        if !pass { ctx.out.count(&format!("varies:{}", op)); }
+    }
+}
+
+// ------------------------------------------------------------------------------------------------ model tie
+
+/// the model is given the iteration order this process sees (`Records.map` is public) and must reproduce the
+/// bytes exactly; with the repaired code (translator flag) the model ignores the order and sorts
+fn tie_records(ctx: &mut Ctx, _idx: usize, rc: &RecCase) {
+    let recs = mk_records(rc);
+    let pi: Vec<(usize, Vec<u8>)> = recs.map.iter().map(|(k, v)| (*k, v.as_bytes().to_vec())).collect();
+    let es = entries_str(&pi);
+    ctx.out.q(&format!("c20 to-json {} {}", rc.rec_len, es), &hx(recs.to_json(None).as_bytes()));
+    ctx.out.q(&format!("c20 display {}", es), &hx(recs.to_string().as_bytes()));
+    let mut f = blank_fimg(rc.chunk_len, &rc.init);
+    let ans = match recs.update_fimg(&mut f, rc.require_first, Ident, rc.clear) { Ok(()) => canon_fimg(&f), Err(_) => "refused".to_string() };
+    let mut init = rc.init.clone();
+    init.sort();
+    ctx.out.q(&format!("c20 update-fimg {} {} {} {} {} {}", rc.rec_len, rc.chunk_len, rc.require_first as u8, rc.clear as u8, entries_str(&init), es), &ans);
+    ctx.out.count("tie:records");
+}
+
+fn tie_dasm_map(ctx: &mut Ctx) {
+    let book = a2kit::lang::merlin::handbook::operations::OperationHandbook::new();
+    let map = book.create_dasm_map();
+    let names: Vec<String> = (0..256usize).map(|c| match map.get(&(c as u8)) { Some(op) => op.mnemonic.clone(), None => "?".to_string() }).collect();
+    ctx.out.q("c20 dasm-map", &names.join(","));
+    ctx.out.count("tie:dasm-map");
+}
+
+fn tie_chunks_json(ctx: &mut Ctx) {
+    let mut rng = Rng::new(ctx.seed).fork(0xC20);
+    for _ in 0..ctx.n(4, 16) {
+        let mut init = Vec::new();
+        let mut keys: Vec<usize> = Vec::new();
+        while keys.len() < 7 { let k = rng.below(30); if !keys.contains(&k) { keys.push(k); } }
+        for k in keys { let n = rng.range(0, 12); init.push((k, rng.bytes(n))); }
+        let f = blank_fimg(16, &init);
+        let js = f.to_json(None);
+        let pi: Vec<(usize, Vec<u8>)> = f.chunks.iter().map(|(k, v)| (*k, v.clone())).collect();
+        match js.find("\"chunks\":") {
+            Some(p) => ctx.out.q(&format!("c20 chunks-json {}", entries_str(&pi)), &hx(js[p + 9..js.len() - 1].as_bytes())),
+            None => ctx.out.q(&format!("c20 chunks-json {}", entries_str(&pi)), "no-chunks-member"),
+        }
+        ctx.out.count("tie:chunks-json");
+    }
+}
